@@ -303,8 +303,11 @@ class OutputParser(TraceVisitor):
         nxt = next(self.data)
         if isinstance(nxt, str):
             nxt = int(nxt[::-1], 2)
-        elif isinstance(nxt, bool):
-            # True is the integer 1 (as an array index it would be a mask)
+        elif isinstance(nxt, bool) or (
+            getattr(getattr(nxt, "dtype", None), "kind", None) == "b"
+        ):
+            # True (numpy's too) is the integer 1; as an array index it would
+            # be a mask
             nxt = int(nxt)
         mr = Readout(nxt, self.readout_index)
         subcircuit.accept_readout(mr)
